@@ -67,6 +67,7 @@ type server struct {
 	Leaves []string `json:"leaves"`
 	Pos    string   `json:"pos"`
 	Func   string   `json:"func"`
+	Addr   string   `json:"addr"`
 }
 
 type table struct {
@@ -388,12 +389,71 @@ func scanBody(p *packages.Package, info *types.Info, body ast.Node, fname string
 		return []string{types.ExprString(e)}
 	}
 
+	// exprText renders an expression with local variables replaced by what
+	// they were assigned (used for the listen address of a server).
+	var exprText func(e ast.Expr, depth int) string
+	exprText = func(e ast.Expr, depth int) string {
+		e = ast.Unparen(e)
+		if depth > 6 {
+			return types.ExprString(e)
+		}
+		switch x := e.(type) {
+		case *ast.Ident:
+			o := info.Uses[x]
+			if o == nil {
+				o = info.Defs[x]
+			}
+			if rhs := assigns[o]; len(rhs) == 1 {
+				return exprText(rhs[0], depth+1)
+			}
+		case *ast.SelectorExpr:
+			return exprText(x.X, depth+1) + "." + x.Sel.Name
+		case *ast.CallExpr:
+			args := make([]string, len(x.Args))
+			for i, a := range x.Args {
+				args[i] = exprText(a, depth+1)
+			}
+			return exprText(x.Fun, depth+1) + "(" + strings.Join(args, ", ") + ")"
+		}
+		return types.ExprString(e)
+	}
+	serverLit := func(x *ast.CompositeLit) {
+		t := info.TypeOf(x)
+		if !(isNamed(t, "net/http", "Server") || isNamed(t, "github.com/quic-go/quic-go/http3", "Server")) {
+			return
+		}
+		sv := server{What: types.TypeString(t, nil) + " literal", Pos: pos(x.Pos()), Func: p.PkgPath + "." + fname,
+			Leaves: []string{"http.DefaultServeMux"}}
+		for _, el := range x.Elts {
+			kv, ok := el.(*ast.KeyValueExpr)
+			if !ok {
+				continue
+			}
+			if id, ok := kv.Key.(*ast.Ident); ok {
+				switch id.Name {
+				case "Handler":
+					sv.Leaves = leaves(kv.Value, 0, map[types.Object]bool{})
+				case "Addr":
+					sv.Addr = exprText(kv.Value, 0)
+				}
+			}
+		}
+		tab.Servers = append(tab.Servers, sv)
+	}
+	listenCall := func(call *ast.CallExpr, name string) {
+		if len(call.Args) < 2 {
+			return
+		}
+		tab.Servers = append(tab.Servers, server{What: "http." + name, Leaves: leaves(call.Args[len(call.Args)-1], 0, map[types.Object]bool{}),
+			Pos: pos(call.Pos()), Func: p.PkgPath + "." + fname, Addr: exprText(call.Args[0], 0)})
+	}
+
 	var ifStack []ast.Node
 	var visit func(n ast.Node) bool
 	visit = func(n ast.Node) bool {
 		switch x := n.(type) {
 		case *ast.CallExpr:
-			scanCall(p, info, x, fname, inHTTPRegister, ifStack, tab, leaves)
+			scanCall(p, info, x, fname, inHTTPRegister, ifStack, tab, listenCall)
 		case *ast.AssignStmt:
 			if len(x.Lhs) == len(x.Rhs) {
 				for i, l := range x.Lhs {
@@ -421,15 +481,9 @@ func scanBody(p *packages.Package, info *types.Info, body ast.Node, fname string
 					if v, ok := info.Uses[id].(*types.Var); ok && v.IsField() && isRegisterFunc(v.Type()) {
 						tab.Bindings = append(tab.Bindings, classifySrc(info, kv.Value))
 					}
-					if v, ok := info.Uses[id].(*types.Var); ok && v.IsField() && v.Name() == "Handler" {
-						t := info.TypeOf(x)
-						if isNamed(t, "net/http", "Server") || isNamed(t, "github.com/quic-go/quic-go/http3", "Server") {
-							tab.Servers = append(tab.Servers, server{What: types.TypeString(t, nil) + " literal",
-								Leaves: leaves(kv.Value, 0, map[types.Object]bool{}), Pos: pos(kv.Pos()), Func: p.PkgPath + "." + fname})
-						}
-					}
 				}
 			}
+			serverLit(x)
 		case *ast.ReturnStmt:
 			// a function returning a RegisterFunc
 			for _, r := range x.Results {
@@ -484,7 +538,7 @@ func isHandlerish(t types.Type) bool {
 }
 
 func scanCall(p *packages.Package, info *types.Info, call *ast.CallExpr, fname string, inHTTPRegister bool,
-	ifStack []ast.Node, tab *table, leaves func(ast.Expr, int, map[types.Object]bool) []string) {
+	ifStack []ast.Node, tab *table, listenCall func(*ast.CallExpr, string)) {
 	o := calleeObj(info, call.Fun)
 	// arguments bound to RegisterFunc parameters
 	if sig, ok := types.Unalias(info.TypeOf(call.Fun)).Underlying().(*types.Signature); ok && sig != nil {
@@ -597,11 +651,7 @@ func scanCall(p *packages.Package, info *types.Info, call *ast.CallExpr, fname s
 	if f, ok := o.(*types.Func); ok && f.Pkg() != nil && f.Pkg().Path() == "net/http" && f.Type().(*types.Signature).Recv() == nil {
 		switch f.Name() {
 		case "ListenAndServe", "ListenAndServeTLS", "Serve", "ServeTLS":
-			h := call.Args[len(call.Args)-1]
-			if f.Name() == "ListenAndServeTLS" || f.Name() == "ServeTLS" {
-				h = call.Args[len(call.Args)-1]
-			}
-			tab.Servers = append(tab.Servers, server{What: "http." + f.Name(), Leaves: leaves(h, 0, map[types.Object]bool{}), Pos: pos(call.Pos()), Func: p.PkgPath + "." + fname})
+			listenCall(call, f.Name())
 		}
 	}
 }
@@ -689,7 +739,7 @@ func writeOutputs(verif string, tab *table) {
 		}
 		fmt.Fprintf(&b, "  (* %s := NewServeMux() in %s *) (%s, %s, %s)%s\n", comment(m.Target), comment(m.Func), coqBytes(m.Func), coqBytes(m.Target), coqBytes(m.Pos), sep)
 	}
-	b.WriteString("].\n\n(* the handler of every server: the expressions it is built from *)\nDefinition servers : list (bytes * bytes * list bytes) := [\n")
+	b.WriteString("].\n\n(* the handler of every server: the expressions it is built from *)\nDefinition servers : list (bytes * bytes * bytes * list bytes) := [\n")
 	for i, s := range tab.Servers {
 		sep := ";"
 		if i == len(tab.Servers)-1 {
@@ -703,7 +753,7 @@ func writeOutputs(verif string, tab *table) {
 		if len(ls) > 0 {
 			lst = "[" + strings.Join(ls, "; ") + "]"
 		}
-		fmt.Fprintf(&b, "  (* %s in %s: %s *) (%s, %s, %s)%s\n", comment(s.What), comment(s.Func), comment(strings.Join(s.Leaves, ", ")), coqBytes(s.Func), coqBytes(s.Pos), lst, sep)
+		fmt.Fprintf(&b, "  (* %s in %s on %s: %s *) (%s, %s, %s, %s)%s\n", comment(s.What), comment(s.Func), comment(s.Addr), comment(strings.Join(s.Leaves, ", ")), coqBytes(s.Func), coqBytes(s.Pos), coqBytes(s.Addr), lst, sep)
 	}
 	b.WriteString("].\n")
 	gen := filepath.Join(verif, "coq", "Gen")
